@@ -859,6 +859,66 @@ def stream_grid(ctx, ncases, periodic_driver=False):
 
 
 # ---------------------------------------------------------------------------------------------
+# stream C2: the model's own interp_grid2 (two coordinates, variable with dims (x, y))
+# ---------------------------------------------------------------------------------------------
+
+
+def stream_grid2(ctx, ncases):
+    rng = ctx.rng
+    cases, metas, lines = [], [], []
+    for q in range(ncases):
+        ax = gen_grid(rng, rng.choice([2, 3, 4, 6]))
+        ay = gen_grid(rng, rng.choice([2, 3, 5]))
+        xp = list(reversed(ax)) if rng.random() < 0.3 else ax
+        yp = list(reversed(ay)) if rng.random() < 0.3 else ay
+        poison = (q % 5 == 0)          # one x target outside its grid: every output must be missing
+        xs = [v for _, v in gen_targets(rng, ax, rng.randint(1, 5))]
+        if poison:
+            xs = [lat(rng, ax[0], ax[-1], 64) for _ in xs] + [ax[-1] + 1.0]
+            rng.shuffle(xs)
+        ys = [v for _, v in gen_targets(rng, ay, rng.randint(1, 5))]
+        nearest = rng.random() < 0.2
+        m = np.array([C.dyadic(rng, -8, 8, 10) for _ in range(len(xp) * len(yp))]).reshape(len(xp), len(yp))
+        nank = "none" if poison else rng.choice(["none", "none", "isolated", "node"])
+        if nank != "none":
+            add_nans(rng, m, 0, nank)
+        case = {"op": "ds_grid", "nearest": nearest,
+                "targets": [["x", tgt("float", xs)], ["y", tgt("float", ys)]],
+                "ds": {"coords": {"x": coord_desc("float", xp), "y": coord_desc("float", yp)},
+                       "vars": [{"name": "u", "dims": ["x", "y"], "shape": [len(xp), len(yp)], "data": hexlist(m)}]}}
+        cases.append(case)
+        metas.append((xp, yp, m, xs, ys, nearest, poison, nank))
+        lines.append("grid2 %s %s %s %s %s %s" % ("T" if nearest else "F", C.flist(xp), C.flist(yp),
+                                                  rows_tok([[float(v) for v in r] for r in m]), C.flist(xs), C.flist(ys)))
+    impl = ctx.impl("C13.py", {"cases": cases})["results"]
+    mod = ctx.model(lines)
+    for c, (xp, yp, m, xs, ys, nearest, poison, nank), im, mo in zip(cases, metas, impl, mod):
+        rep = {"op": "interpolate_dataset_grid", "case": c}
+        ctx.tally("grid2:%s" % ("one-x-target-outside" if poison else "regular"))
+        ctx.tally("grid2-nan:%s" % nank)
+        if isinstance(im, dict) and "error" in im:
+            ctx.oracle_fail("interpolate_dataset_grid raised %s: %s" % (im["error"], im["msg"]), rep)
+            ctx.count(["grid2", c], False)
+            continue
+        got = unhexarr(im["vars"]["u"])
+        ctx.count(["grid2", c], bool(np.isfinite(got).any()) or poison)
+        if mo and mo[0] == "ERR":
+            raise C.Infra("model error " + " ".join(mo))
+        want = np.array([C.unfx(t) for t in mo], dtype="float64").reshape(len(ys), len(xs)).T
+        if list(got.shape) != [len(xs), len(ys)]:
+            ctx.oracle_fail("interpolate_dataset_grid: u has shape %s, expected %s" % (list(got.shape), [len(xs), len(ys)]), rep)
+            continue
+        if nearest and (tie_indices(xp, xs) or tie_indices(yp, ys)):
+            ctx.tally("grid2:nearest-tie, model comparison skipped")
+            continue
+        bad = close_arrays(got, want, data_scale(m))
+        if bad is not None:
+            ctx.disagree("interpolate_dataset_grid (x then y) differs from interp_grid2 of the model at flat index %s: impl %r model %r" %
+                         (bad, float(got.reshape(-1)[bad]), float(want.reshape(-1)[bad])),
+                         dict(rep, impl=hexlist(got), model=hexlist(want)))
+
+
+# ---------------------------------------------------------------------------------------------
 # stream D: interpolate_track_data_arrray / interpolate_at_points (all dimensions interpolated)
 # ---------------------------------------------------------------------------------------------
 
@@ -1232,11 +1292,29 @@ def stream_spectra(ctx, ncases):
 
 
 def run(ctx):
-    stream_enc(ctx, ctx.n(120, 4000))
-    stream_axis(ctx, ctx.n(160, 6000), ctx.n(30, 600))
-    stream_grid(ctx, ctx.n(40, 1500))
-    stream_points(ctx, ctx.n(50, 2000))
-    stream_spectra(ctx, ctx.n(60, 2500))
+    stream_enc(ctx, ctx.n(300, 4000))
+    stream_axis(ctx, ctx.n(450, 6000), ctx.n(60, 600))
+    stream_grid(ctx, ctx.n(120, 1500))
+    stream_grid2(ctx, ctx.n(60, 1000))
+    stream_points(ctx, ctx.n(150, 2000))
+    stream_spectra(ctx, ctx.n(180, 2500))
+
+
+def replay(ctx, obj):
+    """re-run the recorded call on the repo under test and print what it returns"""
+    import json
+    inp = obj.get("input", {})
+    case = inp.get("case")
+    if case is None and "xp" in inp:
+        case = {"op": "enc", "xp": [C.fx(v) for v in inp["xp"]], "x": [C.fx(v) for v in inp["x"]],
+                "period": None if inp.get("period") is None else C.fx(inp["period"])}
+    if case is None:
+        print("replay: no recorded call in this file")
+        return
+    res = ctx.impl("C13.py", {"cases": [case]})["results"][0]
+    print("what was reported:", obj.get("what"))
+    print("call:", case.get("op"), " result of the repo under test:")
+    print(json.dumps(res)[:4000])
 
 
 READY = False
